@@ -99,7 +99,10 @@ def make_cases(tier, seed):
                 script += [("rebuild", rows), ("dump",), ("apply", f1, x0)]
             if r.random() < 0.3:
                 script += [("rebuild", perturb(r, A1)), ("dump",), ("apply", gen.rvec(r, n), x0)]
-        cases.append(ac.Case("c%d" % k, co, rx, cfg, ac.rand_cprm(r, co), r.choice(["1", "1/2", "3/4", "-", "5/8"]), n, rows, script))
+        cp = ac.rand_cprm(r, co)
+        # over-interpolation factors BELOW one are valid parameters too: the coarse operator is R A P / over_interp whatever its size
+        if co == "aggregation" and k % 3 == 0: cp["over_interp"] = ["4/5", "1/2", "3/4"][(k // 3) % 3]
+        cases.append(ac.Case("c%d" % k, co, rx, cfg, cp, r.choice(["1", "1/2", "3/4", "-", "5/8"]), n, rows, script))
     return cases
 
 def classify(f):
